@@ -2,8 +2,6 @@ SPECIFICATION Spec
 CONSTANTS
   RewriteNullable = FALSE
   SkipThroughAll = FALSE
-  FirstPasses = 0
-INVARIANT Sound
+  FirstPasses = 1
 INVARIANT SoundCode
-INVARIANT TranscriptionOK
 CHECK_DEADLOCK FALSE
